@@ -1371,6 +1371,8 @@ pub fn items(prop: &str, tier: Tier) -> Vec<Item> {
         "C15" => {
             let ck = CK_RESULT | CK_VS_SEQ;
             out.push(Item { case: case(Src::SVec, 0, "", Term::Build), plan: Plan::base_np(), checks: CK_FN_SWEEP });
+            // sampled large lengths (300 .. 5000) with Auto / large / odd chunk sizes and up to 16 threads
+            out.extend(engine_big(&[Term::CollectVec, Term::CollectX, Term::Count, Term::Reduce, Term::Find, Term::IntoVec], ck, tier, &["", "M", "MF", "OF", "XF"]));
             let terms = [Term::CollectVec, Term::Collect, Term::CollectX, Term::IntoVec, Term::Count, Term::Reduce, Term::Find, Term::First, Term::ForEach, Term::Any];
             let ns: Vec<usize> = if th { vec![0, 1, 2, 3, 4, 5, 6, 7, 8, 33, 100] } else { vec![0, 1, 2, 3, 5, 8, 33] };
             let ws = [NtSet::Keep, NtSet::N(1), NtSet::N(2), NtSet::N(3), NtSet::N(5), NtSet::N(8), NtSet::Max(64)];
